@@ -67,8 +67,13 @@ public:
     // std::cerr << "[" << index << "," << index % active << "]\n";
     if (mindex == substrate::ThreadPool::getSocket())
       items.getLocal()->push(val);
-    else
+    else {
+      // the container buffers pushes per thread: publish right away, or the
+      // item stays in this thread's private chunk of the remote socket's
+      // buffer where the owning socket never looks
       pushBuffer.getRemote(mindex)->push(val);
+      pushBuffer.getRemote(mindex)->flush();
+    }
   }
 
   template <typename ItTy>
